@@ -10,6 +10,13 @@ namespace yaclib::fault {
 static Scheduler* sCurrentScheduler = nullptr;
 static thread_local detail::fiber::FiberBase* sCurrent = nullptr;
 static std::uint32_t sTickLength = 10;
+#ifdef YACLIB_VERIF
+static VerifResumeHook sVerifResumeHook = nullptr;
+
+void SetVerifResumeHook(VerifResumeHook hook) noexcept {
+  sVerifResumeHook = hook;
+}
+#endif
 
 detail::fiber::FiberBase* Scheduler::GetNext() {
   YACLIB_DEBUG(_queue.Empty(), "Queue can't be empty");
@@ -91,6 +98,11 @@ void Scheduler::RunLoop() {
     auto* next = GetNext();
     sCurrent = next;
     TickTime();
+#ifdef YACLIB_VERIF
+    if (sVerifResumeHook != nullptr) {
+      sVerifResumeHook(next->GetId(), _time);
+    }
+#endif
     next->Resume();
     if (next->GetState() == detail::fiber::Completed && !next->IsThreadAlive()) {
       delete next;
